@@ -181,8 +181,9 @@ func prepareReassembly(bs []Bundle) error {
 			return fmt.Errorf("next fragment starts at offset %d, gap from %d to %d", fragOff, lastIndex, fragOff)
 		} else if payloadBlock, err := b.PayloadBlock(); err != nil {
 			return err
-		} else {
-			lastIndex = fragOff + uint64(len(payloadBlock.Value.(*PayloadBlock).Data()))
+		} else if fragEnd := fragOff + uint64(len(payloadBlock.Value.(*PayloadBlock).Data())); fragEnd > lastIndex {
+			// A fragment might be contained in its predecessors; it must not move the index back.
+			lastIndex = fragEnd
 		}
 	}
 
@@ -215,6 +216,11 @@ func mergeFragmentPayload(bs []Bundle) (data []byte, err error) {
 			return
 		}
 		fragPayloadData = fragPayloadBlock.Value.(*PayloadBlock).Data()
+
+		// Skip fragments which are entirely contained in the preceding ones.
+		if fragStartIndex+len(fragPayloadData) <= lastIndex {
+			continue
+		}
 
 		data = append(data, fragPayloadData[lastIndex-fragStartIndex:]...)
 		lastIndex = fragStartIndex + len(fragPayloadData)
